@@ -103,7 +103,7 @@ impl Property for P {
     fn cases(tier: Tier) -> u64 {
         match tier {
             Tier::Quick => 15_000,
-            Tier::Thorough => 100_000,
+            Tier::Thorough => 600_000,
         }
     }
     fn strategy(_tier: Tier) -> BoxedStrategy<Case> {
